@@ -230,12 +230,110 @@ pub fn gen_greedy(r: &mut Rng, feat: u32) -> (Universe, Prob) {
     (u, Prob { reqs, cons: vec![], soft: vec![] })
 }
 
+/// Conflict-heavy universes: every package has 2-4 candidates, every version
+/// set matches a non-empty random half, solvables require and constrain other
+/// packages through such halves, the root asks for "any version" of a few
+/// packages. First-ranked candidates usually clash somewhere below, so the
+/// solver has to learn and backjump, yet most instances stay satisfiable.
+pub fn gen_conflict(r: &mut Rng, feat: u32) -> (Universe, Prob) {
+    let n_names = r.range(4, 7) as u32;
+    let mut u = Universe::default();
+    for n in 0..n_names {
+        let k = r.range(2, 4) as u32;
+        let mut p = Pkg::default();
+        let mut ranks: Vec<u32> = (0..k).collect();
+        r.shuffle(&mut ranks);
+        for i in 0..k {
+            let id = u.sols.len() as u32;
+            u.sols.push(Sol { name: n, rank: ranks[i as usize], deps: Some(Known { reqs: vec![], cons: vec![] }) });
+            p.cands.push(id);
+        }
+        r.shuffle(&mut p.cands);
+        if feat & F_FAVORED != 0 && r.chance(1, 6) {
+            p.favored = Some(p.cands[r.below(k as u64) as usize]);
+        }
+        if feat & F_LOCKED != 0 && r.chance(1, 12) {
+            p.locked = Some(p.cands[r.below(k as u64) as usize]);
+        }
+        if feat & F_EXCLUDED != 0 && r.chance(1, 10) {
+            p.excluded.push(p.cands[r.below(k as u64) as usize]);
+        }
+        if feat & F_HINTS != 0 {
+            p.hint = match r.below(3) {
+                0 => Hint::None,
+                1 => Hint::All,
+                _ => Hint::Some(p.cands.iter().copied().filter(|_| r.chance(1, 2)).collect()),
+            };
+        }
+        u.pkgs.push(p);
+    }
+    // version sets: 3n = all, 3n+1 / 3n+2 = random non-empty halves
+    for n in 0..n_names {
+        let cands = u.pkgs[n as usize].cands.clone();
+        u.vss.push(Vs { name: n, matching: cands.clone() });
+        for _ in 0..2 {
+            let mut m: Vec<u32> = cands.iter().copied().filter(|_| r.chance(1, 2)).collect();
+            if m.is_empty() {
+                m.push(cands[r.below(cands.len() as u64) as usize]);
+            }
+            u.vss.push(Vs { name: n, matching: m });
+        }
+    }
+    if feat & F_UNIONS != 0 {
+        for _ in 0..r.below(3) {
+            let a = r.below(3 * n_names as u64) as u32;
+            let b = r.below(3 * n_names as u64) as u32;
+            u.unions.push(vec![a, b]);
+        }
+    }
+    let nun = u.unions.len() as u64;
+    for s in 0..u.sols.len() {
+        let me = u.sols[s].name;
+        let mut reqs = vec![];
+        for _ in 0..r.range(1, 2) {
+            let mut n = r.below(n_names as u64) as u32;
+            if n == me {
+                n = (n + 1) % n_names;
+            }
+            if nun > 0 && r.chance(1, 8) {
+                reqs.push(Req::Union(r.below(nun) as u32));
+            } else {
+                reqs.push(Req::Single(3 * n + r.below(3) as u32));
+            }
+        }
+        let mut cons = vec![];
+        if feat & F_CONSTRAINS != 0 && r.chance(1, 2) {
+            let mut n = r.below(n_names as u64) as u32;
+            if n == me {
+                n = (n + 1) % n_names;
+            }
+            cons.push(3 * n + 1 + r.below(2) as u32);
+        }
+        u.sols[s].deps = if feat & F_UNKNOWN != 0 && r.chance(1, 30) { None } else { Some(Known { reqs, cons }) };
+    }
+    let mut reqs = vec![];
+    let k = r.range(2, 3);
+    let mut names: Vec<u32> = (0..n_names).collect();
+    r.shuffle(&mut names);
+    for i in 0..k as usize {
+        reqs.push(Req::Single(3 * names[i] + if r.chance(1, 4) { 1 } else { 0 }));
+    }
+    let mut soft = vec![];
+    if feat & F_SOFT != 0 {
+        for _ in 0..r.below(3) {
+            soft.push(r.below(u.sols.len() as u64) as u32);
+        }
+    }
+    (u, Prob { reqs, cons: vec![], soft })
+}
+
 pub fn gen_case(id: u64, seed: u64, class: &str, feat: u32) -> Case {
     let mut r = Rng::new(seed.wrapping_mul(0x100000001B3).wrapping_add(id));
     let (u, p) = match class {
         "small" => gen_universe(&mut r, feat, &SMALL),
         "dense" => gen_universe(&mut r, feat, &DENSE),
         "greedy" => gen_greedy(&mut r, feat),
+        "conflict" => gen_conflict(&mut r, feat),
         other => panic!("unknown class {other}"),
     };
     Case { id, class: class.to_string(), u, p }
